@@ -1,6 +1,6 @@
 import NetVerif.Driver.QuicStreamStep
-import NetVerif.Model.QuicMonitor
-/-! Driver for C20: `sm` lines go to the state-machine model, `ev` lines to the wire monitor. -/
+/-! Driver for C20: state-machine ops go to the stream model (tie "sm"), `ev` lines to the
+wire/API monitor with the C20 clauses (tie "net"). -/
 open NetVerif.Driver
 
-def main : IO Unit := runLoop NetVerif.Driver.QuicStreamStep.stepBoth NetVerif.Driver.QuicStreamStep.initBoth
+def main : IO Unit := runLoop (NetVerif.Driver.QuicStreamStep.stepBoth 20) NetVerif.Driver.QuicStreamStep.initBoth
